@@ -219,6 +219,7 @@ def finish(pid, tier, seed, meta, parts, wall, replayers=None, crashed=None):
     viol_items = [(o["label"], o) for o in refuted] + [(f"{b['name']} :: {f.get('case', '')}", dict(
         label=f"{b['name']} :: {f.get('case', '')}", status="refuted", backend=b["kind"], model=f,
         detail=f.get("detail", ""))) for b, f in bfail]
+    native_cache = {}
     for label, o in viol_items:
         k = is_known(label)
         if k:
@@ -230,10 +231,10 @@ def finish(pid, tier, seed, meta, parts, wall, replayers=None, crashed=None):
         rp = dict(property=pid, obligation=label, status="refuted", backend=o.get("backend"),
                   verifier_output=dict(model=o.get("model"), detail=o.get("detail")), replay=None)
         suffix = " no-failing-input-found"
-        fn = None
+        fn = fkey = None
         for key, f in (replayers or {}).items():
             if key in label:
-                fn = f
+                fn, fkey = f, key
                 break
         if o.get("replay"):
             rp["replay"] = o["replay"]
@@ -245,7 +246,9 @@ def finish(pid, tier, seed, meta, parts, wall, replayers=None, crashed=None):
             suffix = ""
         elif fn is not None:
             try:
-                res = fn(o)
+                if fkey not in native_cache:
+                    native_cache[fkey] = fn(o)
+                res = native_cache[fkey]
                 rp["native_replay"] = res
                 if res and res.get("reproduced"):
                     suffix = ""
